@@ -192,7 +192,8 @@ func runChain(out *sink, op string, validateOnly bool) string {
 		if r.class != "ok" {
 			ok, failed = false, "client"
 			if bad := Expect(spec).BadDefault; bad != "" && r.class == "err" && classify(r.detail) == "list-enum-default" {
-				// the declaration itself names a default filter that is no option of the enum; the compiler accepted it
+				// the declaration itself names a default filter that is no option of the enum and the compiler accepted it
+				// (repaired finding client:err:list-enum-default, fix b6c593a: a regression of the compile-side check)
 				out.fail("client:err:list-enum-default", "list method reaches "+bad+": "+r.detail)
 				out.count("pkg.bad-enum-default")
 				return "fail client"
